@@ -74,6 +74,10 @@ class CondCtx(object):
                 if all(v is not None or _is_none(e) for v, e in zip(vals, right.elts)):
                     pos = isinstance(op, ast.In) == polarity
                     return [Lit("set", self.subject(left), frozenset(map(_key, vals)), pos, norm(test))]
+            if isinstance(op, (ast.In, ast.NotIn)):
+                # membership in a run-time container: one canonical atom `a in b` for both spellings
+                pos = isinstance(op, ast.In) == polarity
+                return [Lit("atom", "%s in %s" % (self.subject(left), self.subject(right)), None, pos, norm(test))]
             if isinstance(op, (ast.Eq, ast.NotEq, ast.Is, ast.IsNot)):
                 pos = isinstance(op, (ast.Eq, ast.Is)) == polarity
                 rv, lv = self._val(right), self._val(left)
